@@ -168,3 +168,17 @@ package assertiontree
 //@ ensures type-parameter-operand-is-accepted (=> (and (= (len lhs) 1) (is (local rhsType) *types.TypeParam)) (isnil result))
 //@ ensures basic-operand-is-accepted (=> (and (= (len lhs) 1) (is (mcall Underlying (local rhsType)) *types.Basic)) (isnil result))
 //@ ensures two-variable-form-is-accepted (=> (= (len lhs) 2) (isnil result))
+
+//@ -- C20 (call-site bookkeeping, the producer side): the result of a call to a function under contract is produced at
+//@ -- a call-site return key located at the CALL EXPRESSION - the same location duplicateFullTrigger uses when it
+//@ -- re-keys the callee's return consumers to the call site (otherwise the duplicated triggers never meet the site
+//@ -- the caller reads, and the result is inferred non-nil whatever the argument is).
+//@ method go/ast.Expr Pos fn
+//@ func (*RootAssertionNode).LocationOf
+//@ inline
+//@ func (*RootAssertionNode).getFuncReturnProducers
+//@ prop C20
+//@ modifies *
+//@ loop 0 step contracted-result-keyed-at-the-call-expression (=> (> (calls "NewCallSiteRetKey") 0)
+//@    (and (= (calls "NewCallSiteRetKey") 1) (= (callarg "NewCallSiteRetKey" 0 0) (local funcObj)) (= (callarg "NewCallSiteRetKey" 0 1) (athead i))
+//@         (= (callarg "NewCallSiteRetKey" 0 2) (call |(*go.uber.org/nilaway/util/analysishelper.EnhancedPass).PosToLocation| (atloop (. r functionContext pass)) (mcall Pos (typed ast.Expr (iface *ast.CallExpr expr)))))))
